@@ -4,6 +4,8 @@ Domain   generated histories (nested at any directory, several generations, fail
          alter / restore / changing formats, -sf generations); then `info ROOT` for every history root and
          `info -sf FILE` for every recorded file (without root => nearest enclosing history; and with that root
          given explicitly); folders and files without any history.
+         Later additions: 2-3 -sf options in one call; -v; the root named relative to the working directory; generations
+         written under one time zone and read under another; folders above all histories (exit 30).
 Oracle   stdout parsed into blocks ('Info with history at path', 'Child History at <path>:', 'Generation n (date)'):
          the blocks must name exactly the histories at or below the root, each exactly once, each listing exactly
          the generations and creation dates that the independent reader finds in the manifests, ascending.
